@@ -11,6 +11,8 @@ RULE = ("float/int/bool arrays of 1-4 dims; block 'shapes' enumerates every shap
         "function in {sum,prod,mean,var,std,min,max,ptp,all,any,median,percentile}, axis given by {name, position, None, tuple of names in "
         "any order}, skipna. class = (function, skipna, axis form, dtype kind, NaN pattern, ndim, #reduced, result all-ones?); trivial = none")
 ANCHORS = ["transform.apply_along_axis", "transform._get_func", "transform._deal_with_axis", "transform._median_with_nan", "stats.percentile"]
+# entry points the workload calls itself; the other anchors are helpers behind them (counted as evidence only)
+ANCHORS_REQUIRED = ["stats.percentile"]
 FLOORS = {"quick": {"evaluations": 3000, "distinct": 1200, "outcome:tuple-axis": 300, "outcome:single-element-result": 200},
           "thorough": {"evaluations": 50000, "distinct": 3000}}
 FUNCS = ['sum', 'prod', 'mean', 'var', 'std', 'min', 'max', 'ptp', 'all', 'any', 'median']
